@@ -65,10 +65,16 @@ def render_free(P, S, r):
         text = s.src()
         if i in S:
             pre = r.choice(["!$ ", "  !$ ", "!$  ", ind + "!$ "])
-            pts = [a for (_, _, a, _) in lex_spans(text)[1:]]
+            spans = lex_spans(text)
+            pts = [a for (_, _, a, _) in spans[1:]]
+            # points inside character literals (not next to a quote, so that no doubled quote is split)
+            inlit = [k for (tok, cls, a, b) in spans if cls == "S" and b - a >= 5
+                     for k in range(a + 2, b - 1) if text[k - 1] not in "'\"" and text[k] not in "'\""]
+            if inlit and r.random() < 0.35:
+                pts = pts + r.sample(inlit, min(2, len(inlit)))
             if pts and r.random() < 0.4:
                 k = r.randint(1, min(2, len(pts)))
-                cuts = sorted(r.sample(pts, k))
+                cuts = sorted(set(r.sample(pts, k)))
                 prev = 0
                 pieces = []
                 for c in cuts:
@@ -77,13 +83,18 @@ def render_free(P, S, r):
                 pieces.append(text[prev:])
                 for j, p in enumerate(pieces):
                     last = j == len(pieces) - 1
+                    chr_next = (not last) and cuts[j] in inlit          # this line ends inside a literal
+                    chr_prev = j > 0 and cuts[j - 1] in inlit           # this line starts inside a literal
                     if j == 0:
                         lines.append(pre + p + ("&" if not last else ""))
                     else:
                         if r.random() < 0.3:
                             lines.append(r.choice(["  ! an ordinary comment", "", "   !x"]))
-                        cpre = r.choice(["!$ &", "!$& ", "!$ ", "  !$ & ", "!$&"])
-                        lines.append(cpre + p + ("" if last else " &"))
+                        if chr_prev:
+                            cpre = r.choice(["!$ &", "  !$ &", "!$&", "!$      &"])     # the literal resumes right after '&'
+                        else:
+                            cpre = r.choice(["!$ &", "!$& ", "!$ ", "  !$ & ", "!$&", "!$      "])
+                        lines.append(cpre + p + ("" if last else ("&" if chr_next else " &")))
                     nsent += 1
             else:
                 lines.append(pre + text)
